@@ -191,21 +191,52 @@ inline bool bit(unsigned long a, unsigned s)
     return (a >> s) & 1ul;
 }
 
+//! Pack a vector of booleans 30 per integer, least significant bit first (the layout of the
+//! truth tables of spec/Csg.tla: representation only, no interpretation)
+class BitPacker
+{
+  public:
+    void push(bool b)
+    {
+        if (b)
+            cur_ |= (1u << nbits_);
+        if (++nbits_ == 30)
+            flush();
+    }
+    json finish()
+    {
+        if (nbits_ > 0)
+            flush();
+        return std::move(limbs_);
+    }
+
+  private:
+    void flush()
+    {
+        limbs_.push_back(cur_);
+        cur_ = 0;
+        nbits_ = 0;
+    }
+    json limbs_ = json::array();
+    unsigned cur_{0};
+    unsigned nbits_{0};
+};
+
 //! Run the real LogicEvaluator on all 2^ns assignments; entry a is its value on assignment a
 json eval_postfix_all(std::vector<LocalSurfaceId> const& faces,
                       std::vector<logic_int> const& logic,
                       unsigned ns)
 {
-    json ev = json::array();
+    BitPacker ev;
     celeritas::detail::LogicEvaluator eval{make_span(logic)};
     std::vector<Sense> senses(faces.size());
     for (unsigned long a = 0; a < (1ul << ns); ++a)
     {
         for (std::size_t f = 0; f < faces.size(); ++f)
             senses[f] = to_sense(bit(a, faces[f].unchecked_get()));
-        ev.push_back(eval(make_span(senses)) ? 1 : 0);
+        ev.push(eval(make_span(senses)));
     }
-    return ev;
+    return ev.finish();
 }
 
 //! Budget for the validation work of one encoding (tokens x assignments): longer logic
@@ -425,12 +456,12 @@ json rec_demorgan(CsgTree tree, std::vector<NodeId> const& vols, unsigned ns)
         {
             e["toks"] = logic_json(toks);
             celeritas::detail::InfixEvaluator eval{make_span(toks)};
-            json ev = json::array();
+            BitPacker ev;
             for (unsigned long a = 0; a < (1ul << ns); ++a)
             {
-                ev.push_back(eval([a](FaceId f) { return bit(a, f.unchecked_get()); }) ? 1 : 0);
+                ev.push(eval([a](FaceId f) { return bit(a, f.unchecked_get()); }));
             }
-            e["ev"] = ev;
+            e["ev"] = ev.finish();
             e["skip"] = false;
         }
         else
@@ -731,23 +762,31 @@ void mode_fix(unsigned long seed, std::string const& path, std::vector<std::stri
                            {"flags", v.value("flags", 0)}};
                     bool exh = nf <= max_exh_faces;
                     r["exh"] = exh;
-                    json samples = json::array(), vals = json::array();
+                    // sampled sense vectors ("worlds"): all of them when few faces, else random
                     unsigned long n = exh ? (1ul << nf) : nsample;
-                    std::vector<Sense> senses(nf);
-                    if (!logic.empty())
+                    std::vector<unsigned long> worlds(n);
+                    for (unsigned long i = 0; i < n; ++i)
+                        worlds[i] = exh ? i : (gen() & ((1ul << nf) - 1));
+                    json cols = json::array();
+                    for (unsigned f = 0; f < nf; ++f)
                     {
-                        celeritas::detail::LogicEvaluator eval{make_span(logic)};
-                        for (unsigned long i = 0; i < n; ++i)
-                        {
-                            unsigned long a = exh ? i : (gen() & ((1ul << nf) - 1));
-                            for (unsigned f = 0; f < nf; ++f)
-                                senses[f] = to_sense(bit(a, f));
-                            samples.push_back(a);
-                            vals.push_back(eval(make_span(senses)) ? 1 : 0);
-                        }
+                        BitPacker col;
+                        for (unsigned long a : worlds)
+                            col.push(bit(a, f));
+                        cols.push_back(col.finish());
                     }
-                    r["samples"] = samples;
-                    r["vals"] = vals;
+                    BitPacker vals;
+                    std::vector<Sense> senses(nf);
+                    celeritas::detail::LogicEvaluator eval{make_span(logic)};
+                    for (unsigned long a : worlds)
+                    {
+                        for (unsigned f = 0; f < nf; ++f)
+                            senses[f] = to_sense(bit(a, f));
+                        vals.push(eval(make_span(senses)));
+                    }
+                    r["n"] = n;
+                    r["cols"] = cols;
+                    r["vals"] = vals.finish();
                     out(r);
                     ++vi;
                 }
